@@ -40,6 +40,7 @@ var shared = map[string][]sharedRule{
 		{[]func(*core.Ctx){C05}, []string{"C05.R2", "C05.R3"}, "C04.S15", 20, "reading a header block never reads or allocates outside it (decided by C05.R2/R3): every slice bound and allocation size of the decoders is proved from the guards in machine arithmetic — a chunked reader that asks for more than the block holds, or a version byte taken from the wrong offset, is reported"},
 	},
 	"C09": {
+		{[]func(*core.Ctx){C12}, []string{"C12.R17"}, "C09.R15", 2, "a reply the server sent reaches the caller's context (decided by C12.R17): the client discards a response as too large only on the server's own verdict"},
 		{[]func(*core.Ctx){C04}, []string{"C04.S9"}, "C09.R14", 1, "a large header set reaches the handler over stream transports (decided by C04.S9): header blocks are read with io.ReadFull, a short read is not a truncated block"},
 		{[]func(*core.Ctx){C04}, []string{"C04.S6", "C04.S4"}, "C09.R10", 14, "the header codec the context travels through is exact (decided by C04.S4/S6): every reject guard of the pair decoder rejects only blocks whose next read would not fit, and prefix/payload offsets of encoder and decoder agree — a header with an empty value, or one serialised last, is never lost or refused"},
 		{[]func(*core.Ctx){C17}, []string{"C17.R2", "C17.R3", "C17.R4", "C17.R5"}, "C09.R11", 20, "the context object itself keeps its headers apart (decided by C17.R2–R5): guarded maps, no escaping map, fresh op id per context, deep Clone — a clone or a concurrent reader must not see or change the headers of the request in flight"},
